@@ -110,3 +110,56 @@ def dynamic_code_sites(program):
                 if isinstance(c, ast.Call) and isinstance(c.func, ast.Name) and c.func.id in ("exec", "eval") and not isinstance(n, (ast.FunctionDef, ast.ClassDef)):
                     out.append((None, c))
     return out
+
+
+_MEMO = ("lru_cache", "cache", "cached_property", "memoize", "memoized", "memoise", "memoised")
+
+
+def memoised_functions(program):
+    """(fi, decorator text, mutable) for every function of the program carrying a memoising decorator.  `mutable` is
+    False only when every return value is provably immutable (constants, strings built from them, tuples of those,
+    numbers, None); a memoised mutable result is one object handed to every caller - state that outlives the call."""
+    import ast
+
+    from .model import norm, walk_function
+
+    binds = {}
+
+    def immutable(e, depth=0):
+        if e is None or isinstance(e, ast.Constant) or isinstance(e, ast.JoinedStr):
+            return True
+        if isinstance(e, ast.Name) and depth < 6:
+            vals = binds.get(e.id)
+            return bool(vals) and all(v is not None and immutable(v, depth + 1) for v in vals)
+        if isinstance(e, ast.Tuple):
+            return all(immutable(x, depth + 1) for x in e.elts)
+        if isinstance(e, ast.BinOp):
+            return immutable(e.left, depth + 1) and immutable(e.right, depth + 1)
+        if isinstance(e, ast.Compare) or isinstance(e, ast.BoolOp) and all(immutable(v, depth + 1) for v in e.values):
+            return True
+        if isinstance(e, ast.Call) and norm(e.func) in ("str", "int", "len", "bool", "float", "tuple", "frozenset") :
+            return True
+        if isinstance(e, ast.Call) and isinstance(e.func, ast.Attribute) and e.func.attr in ("join", "format", "lower", "upper", "strip", "decode"):
+            return True
+        return False
+
+    out = []
+    for fi in program.functions.values():
+        for d in getattr(fi.node, "decorator_list", []):
+            f = d.func if isinstance(d, ast.Call) else d
+            t = norm(f)
+            if t.split(".")[-1] in _MEMO:
+                rets = [n.value for n in walk_function(fi.node) if isinstance(n, ast.Return)]
+                binds.clear()
+                for n in walk_function(fi.node):
+                    if isinstance(n, ast.Assign) and len(n.targets) == 1 and isinstance(n.targets[0], ast.Name):
+                        binds.setdefault(n.targets[0].id, []).append(n.value)
+                    elif isinstance(n, ast.AugAssign) and isinstance(n.target, ast.Name):
+                        binds.setdefault(n.target.id, []).append(n.value)
+                    elif isinstance(n, (ast.For, ast.With)):
+                        for x in ast.walk(n.target if isinstance(n, ast.For) else n):
+                            if isinstance(x, ast.Name) and isinstance(x.ctx, ast.Store):
+                                binds.setdefault(x.id, []).append(None)
+                mutable = not rets or not all(immutable(v) for v in rets)
+                out.append((fi, norm(d), mutable))
+    return out
